@@ -57,6 +57,17 @@ impl crux_core::App for App {
 
 pub type CmdHttp = crux_http::command::Http<Effect, Event>;
 
+/// The only effect this app can emit is an HTTP request. Open-ended on purpose: should the
+/// derive ever produce another variant the engine still builds, and the case that meets it ends
+/// as a (caught) panic, i.e. as an unlisted violation naming it.
+fn http_request_of(effect: Effect) -> crux_core::Request<HttpRequest> {
+    match effect {
+        Effect::Http(r) => r,
+        #[allow(unreachable_patterns)]
+        _ => panic!("the core emitted an effect of an unknown kind"),
+    }
+}
+
 /// What a host hands back after a step: effects (HTTP requests) and events.
 pub struct Step {
     pub requests: Vec<crux_core::Request<HttpRequest>>,
@@ -77,7 +88,7 @@ impl Host {
         let mut model = ();
         let upd = tester.update(Event::Go(program), &mut model);
         let step = Step {
-            requests: upd.effects.into_iter().map(|Effect::Http(r)| r).collect(),
+            requests: upd.effects.into_iter().map(http_request_of).collect(),
             events: upd.events,
         };
         (Host::Tester(Box::new(tester)), step)
@@ -93,11 +104,11 @@ impl Host {
     fn drain(&mut self) -> Step {
         match self {
             Host::Cmd(cmd) => {
-                let requests: Vec<_> = cmd.effects().map(|Effect::Http(r)| r).collect();
+                let requests: Vec<_> = cmd.effects().map(http_request_of).collect();
                 let events: Vec<_> = cmd.events().collect();
                 // effects emitted while events were collected
                 let mut requests = requests;
-                requests.extend(cmd.effects().map(|Effect::Http(r)| r));
+                requests.extend(cmd.effects().map(http_request_of));
                 Step { requests, events }
             }
             Host::Tester(_) => unreachable!(),
@@ -114,7 +125,7 @@ impl Host {
             Host::Tester(t) => {
                 let upd = t.resolve(request, result).map_err(|e| format!("{e:?}"))?;
                 Ok(Step {
-                    requests: upd.effects.into_iter().map(|Effect::Http(r)| r).collect(),
+                    requests: upd.effects.into_iter().map(http_request_of).collect(),
                     events: upd.events,
                 })
             }
@@ -131,4 +142,18 @@ impl Host {
             Host::Tester(_) => None,
         }
     }
+}
+
+/// A shell response, assembled through crux_http's own builder so that the engine keeps
+/// building when the protocol structs grow a field.
+pub fn shell_response<'a>(
+    status: u16,
+    headers: impl IntoIterator<Item = (&'a str, &'a str)>,
+    body: Vec<u8>,
+) -> crux_http::protocol::HttpResponse {
+    let mut b = crux_http::protocol::HttpResponse::status(status);
+    for (n, v) in headers {
+        b.header(n, v);
+    }
+    b.body(body).build()
 }
